@@ -64,7 +64,8 @@ EXACT_FIELDS = ["island", "source", "ra", "dec", "peak_flux", "int_flux", "a", "
                 "residual_mean", "residual_std", "ra_str", "dec_str"]
 REL = 1e-6
 PA_ABS = 1e-4
-FIT_PREC = 1e-3      # convergence precision of the least-squares fit, in units of the reported standard error
+FIT_PREC = 2e-2      # convergence precision of the least-squares fit, in units of the reported standard error: lmfit stops at
+                     # ftol = 1.5e-8, i.e. ~sqrt(2 ftol chi2) ~ 2e-3 sigma for a 100-pixel island with noise; measured <= 2.4e-3; 10x margin
 ERR_SLOPE = 10.0     # reported errors may move by this many times the displacement (in sigma) of the fitted columns, relative
 
 
@@ -232,9 +233,15 @@ def clause_a(hdr, P, N, ctx, sig):
         ctx.note_max("a_displacement_in_sigma", T)
         if allowance:
             ctx.count("a_components_equal_only_to_fit_precision")
+        # a component whose shape is unconstrained (reported error of an axis larger than the axis itself) comes from the
+        # inverse of a numerically singular Fisher matrix (rcond ~ 1e-20): its error columns are only reproducible to a few
+        # per cent, whatever the sign of the image
+        unconstrained = any(float(q["err_" + f]) > abs(float(q[f])) for q in (p, n) for f in ("a", "b") if float(q["err_" + f]) > 0)
+        if unconstrained:
+            ctx.count("a_components_with_unconstrained_shape")
         for f in ERR_FIELDS:
             x, y = float(p[f]), float(n[f])
-            tol = max(REL, ERR_SLOPE * min(T, FIT_PREC))
+            tol = max(REL, ERR_SLOPE * min(T, FIT_PREC), 5e-2 if unconstrained else 0.0)
             if not close(x, y, tol):
                 ctx.violation("(a) %s of %s: image %r, negated image %r (expected equal; fitted columns moved by %.3g sigma) (%s)" % (
                     f, who, p[f], n[f], T, sig), "a_%s|%s" % (f, sig))
